@@ -735,7 +735,8 @@ int cmd_run(Options const& opt)
         // Reproduce: regenerate the plan and execute it twice in fresh processes
         json plan = world->make_plan(spec, c.index);
         std::string base = logdir + "/" + opt.property + "-seed" + std::to_string(opt.seed)
-                           + "-run" + std::to_string(c.index);
+                           + "-run" + std::to_string(c.index) + "-"
+                           + std::to_string(fnv1a(key.data(), key.size()) % 100000);
         std::string cand_file = base + ".cand.json";
         {
             std::ofstream o(cand_file);
